@@ -4,6 +4,7 @@ CONSTANTS
   NE = 8
   AbsBug = "none"
   SigBug = "none"
+  NB = 2
 INVARIANT Verdict
 CONSTRAINT Consumed
 POSTCONDITION Post
